@@ -27,6 +27,8 @@ func (P) Rule() string {
 		"transactions (what another or a Byzantine proposer commits), printing after every op the order of goodTxs and utxoTxs, the queued set, Stats, the speculative and committed nonces/balances; " +
 		"a survivor stream (90 quick / 300 thorough cases) makes pending transactions SURVIVE a commit that does not contain them (forced block of an unrelated tx, empty forced block, own block cut by the UTXOSize/max cap, " +
 		"foreign block holding a CONFLICTING spend or a same-nonce competitor) with goodTxs and utxoTxs each empty or not at that Update (every recheck path), then submits a second spend of the same output / the same nonce and reaps and commits; " +
+		"a middle stream (60 quick / 200 thorough) lets a forced block invalidate a MIDDLE transaction of a sender's pending run — a never-submitted competitor with the first nonce drains the balance so that the second one is " +
+		"underfunded while the ones behind it become nonce-too-high (recheckTxs must move them to the future queue AND out of goodTxs), or the block carries the first one plus a competitor of the second — then refills the gap and reaps / commits; " +
 		"a concurrent stream submits prebuilt transactions from 8 goroutines while the consensus goroutine reaps and commits, invariants checked on every reap and after quiescence; " +
 		"non-trivial = at least one commit with a transaction AND at least one of: queued transaction promoted, rejection (dup/stale/funds/double-spend/full/oversized), forced block; distinct = distinct op sequence"
 }
@@ -488,6 +490,13 @@ func (P) Generate(g *hx.Gen) {
 		ops, label := survivorCase(g)
 		g.Case("survivor "+label, ops, true)
 	}
+	// middle stream: a commit invalidates a MIDDLE transaction of a sender's pending run (recheck: funds / nonce-low for the
+	// middle one, nonce-too-high for the ones behind it, which must move to the future queue and leave goodTxs)
+	nm := g.Pick(60, 200)
+	for k := 0; k < nm; k++ {
+		ops, label := middleCase(g)
+		g.Case("middle "+label, ops, true)
+	}
 	// concurrent stream: 8 submitting goroutines against the reaping/committing consensus goroutine
 	nc := g.Pick(25, 50)
 	for k := 0; k < nc; k++ {
@@ -680,4 +689,74 @@ func survivorCase(g *hx.Gen) ([]string, string) {
 	add("commit max=1000")
 	add("reap max=1000")
 	return ops, strings.Join(labels, "+")
+}
+
+// middleCase: sender a (fresh, 10^8 units, receives nothing) has a pending run A_n, A_n+1 (expensive), A_n+2, ...; a forced
+// block then invalidates the MIDDLE one while transactions behind it survive:
+//   drain:  the block holds a never-submitted competitor with nonce n that leaves less than A_n+1 costs: A_n is stale, A_n+1
+//           underfunded (dropped), A_n+2.. nonce-too-high (must move to the future queue and out of goodTxs); if the
+//           competitor leaves 10^7 units a fresh cheap nonce n+1 refills the gap and promotes the queued ones;
+//   middle: the block holds A_n itself and a competitor of A_n+1: A_n+2.. stay executable in goodTxs.
+// Other senders may have pending transactions at the same time.  Ids are exact (every op builds a fresh transaction).
+func middleCase(g *hx.Gen) ([]string, string) {
+	r := g.Rng
+	size := pick(r, []int{5, 3000}, 70)
+	ops := []string{hx.CaseOp("middle"), fmt.Sprintf("pool accts=3 wallets=2 bal=100000000 tbal=1000 size=%d future=%d trie=%d seed=%d",
+		size, pick(r, []int{4, 100000}, 80), r.Intn(2), 1+r.Intn(1000))}
+	id := 0
+	amt := 100
+	add := func(f string, a ...interface{}) { ops = append(ops, fmt.Sprintf(f, a...)) }
+	a := r.Intn(3)
+	to := (a + 1) % 3 // never a: its balance is exactly what this generator computes
+	b := (a + 2) % 3
+	xfer := func(from, nonce, amount int, sub bool) int {
+		suffix := ""
+		if !sub {
+			suffix = " sub=0"
+		}
+		amt += 1 + r.Intn(20)
+		add("xfer from=%d to=%d amount=%d nonce=%d%s", from, to, amount+amt, nonce, suffix)
+		id++
+		return id - 1
+	}
+	n := 0
+	if r.Intn(2) == 0 { // a committed prefix: the run does not start at nonce 0
+		xfer(a, 0, 0, true)
+		add("commit max=1000")
+		n = 1
+	}
+	spent := n * 5001000 // upper bound of what the prefix cost (fee 5*10^6 + amount < 1000)
+	for i := 0; i < r.Intn(3); i++ { // other sender's pending transactions
+		xfer(b, i, 0, true)
+	}
+	m := 2 + r.Intn(2) // transactions behind the middle one (size 5 holds 1 + 1 + m <= 5 of this sender when b is quiet)
+	first := xfer(a, n, 0, true)
+	xfer(a, n+1, 20000000, true) // the middle one costs 2.5*10^7
+	for i := 0; i < m; i++ {
+		xfer(a, n+2+i, 0, true)
+	}
+	label := "middle"
+	if r.Intn(3) != 0 {
+		leave := []int{1, 10000000}[r.Intn(2)]
+		label = fmt.Sprintf("drain/leave=%d", leave)
+		g.Count("middle:drain")
+		// competitor with nonce n: amount + fee 5*10^6 leaves `leave` (+ what the prefix bound over-estimated)
+		c := xfer(a, n, 100000000-spent-5000000-leave-2000, false)
+		add("force ids=%d", c)
+		add("reap max=1000")
+		if leave > 1 {
+			xfer(a, n+1, 0, true) // a cheap nonce n+1 refills the gap: the queued ones behind it are promoted as far as funds last
+		}
+	} else {
+		g.Count("middle:competitor")
+		c := xfer(a, n+1, 0, false)
+		add("force ids=%d,%d", first, c)
+	}
+	add("reap max=1000")
+	add("commit max=%d", []int{1, 1000}[r.Intn(2)])
+	add("reap max=1000")
+	add("commit max=1000")
+	add("commit max=1000")
+	add("reap max=1000")
+	return ops, label
 }
